@@ -132,7 +132,7 @@ pub struct Ctx {
 /// measured: wall seconds of the unboosted quick tier on 16 idle cores -> multiplier
 fn quick_boost(prop: &str) -> f64 {
     match prop {
-        "C01" => 2.0,
+        "C01" => 1.0,
         "C02" => 6.0,
         "C03" => 12.0,
         "C04" => 5.0,
